@@ -308,6 +308,8 @@ def _weak_scalar_dtype(v, arr_dt):
 
 
 def _scalar_dtype(v):
+    if _py_isinstance(v, SV) and v.dt is not None:
+        return v.dt
     if _py_isinstance(v, bool) or (_py_isinstance(v, SV) and v.k == "b"):
         return dtype("bool")
     if _py_isinstance(v, int) or (_py_isinstance(v, SV) and v.k == "i"):
@@ -616,7 +618,7 @@ class ndarray:
             raise Undecided("advanced indexing inside a tuple")
         v = self._basic_view(key)
         if v.ndim == 0 and not _index_keeps_array(key):
-            return v.elem(())
+            return _np_scalar(v.elem(()), self.dtype)
         return v
 
     def _fancy(self, key):
@@ -734,6 +736,15 @@ class ndarray:
         return divide(self, o, out=self)
 
 
+def _np_scalar(val, dt):
+    """element read out of an array: a numpy scalar that remembers its dtype"""
+    if _py_isinstance(val, SV):
+        out = SV(val.t, val.k)
+        out.dt = dt
+        return out
+    return val
+
+
 def _index_keeps_array(key):
     if not _py_isinstance(key, tuple):
         key = (key,)
@@ -777,13 +788,18 @@ def _ceil_div_len(d, step):
     return ite(d <= 0, 0, (d + (step - 1)) // step)
 
 
-BOUNDS_HOOK = [None]  # set by a contract to collect in-bounds obligations
+BOUNDS_HOOK = [None]  # numba mode: a contract collects in-bounds obligations instead of IndexError
 
 
 def _bounds(k, n):
     h = BOUNDS_HOOK[0]
     if h is not None:
         h(k, n)
+        return
+    # numpy semantics: an integer index outside [0, n) raises IndexError
+    ok = (SV.lift(k) >= 0) & (SV.lift(k) < SV.lift(n))
+    if not _py_bool(ok):
+        raise IndexError("index out of bounds for axis")
 
 
 def _wrap_neg(j, n):
@@ -1635,20 +1651,56 @@ def nansum(a, axis=None):
     return _reduction("nansum", a, axis)
 
 
+_QFACTS = {}
+
+
+def _quant(a, is_all):
+    """np.all / np.any over every element: a fresh boolean r with
+       all:  not r  =>  some witness element is false ;  r => elem(i) for any i (via all_elim)
+       any:  r      =>  some witness element is true  ;  not r => not elem(i) (via any_elim)"""
+    a = asarray(a)
+    p = cur()
+    r = core.fresh_bool("np_all" if is_all else "np_any", register=False)
+    e = a.snapshot()
+    sh = a._shape
+    w = tuple(core.fresh_int("wit%d" % k, 0, register=False) for k in _py_range(_py_len(sh)))
+    inr = [core.bterm(wk < d) for wk, d in zip(w, sh)]
+    wv = core.bterm(_to_bool(e(w))) if sh or True else None
+    rng = z3.And(*inr) if inr else z3.BoolVal(True)
+    if is_all:
+        p.add(z3.Implies(z3.Not(r.t), z3.And(rng, z3.Not(wv))))
+    else:
+        p.add(z3.Implies(r.t, z3.And(rng, wv)))
+    _QFACTS[r.t.get_id()] = (r, e, sh, is_all)
+    return r
+
+
+def quant_elim(r, idx):
+    """instantiate the universal fact behind an np.all / np.any result at index idx"""
+    rec = _QFACTS.get(r.t.get_id())
+    if rec is None:
+        return
+    r0, e, sh, is_all = rec
+    v = core.bterm(_to_bool(e(tuple(idx))))
+    rng = z3.And(*[z3.And(core.term(SV.lift(i)) >= 0, core.bterm(SV.lift(i) < d)) for i, d in zip(idx, sh)]) if sh else z3.BoolVal(True)
+    if is_all:
+        cur().add(z3.Implies(z3.And(r0.t, rng), v))
+    else:
+        cur().add(z3.Implies(z3.And(z3.Not(r0.t), rng), z3.Not(v)))
+
+
 @array_function(_first)
 def any(a, axis=None):
-    a = asarray(a)
-    r = _reduction("any", a, axis, dtype("bool"))
-    v = r.elem(())
-    return SV(v.t != 0, "b")
+    if axis is not None:
+        raise Undecided("np.any(axis=)")
+    return _quant(a, False)
 
 
 @array_function(_first)
 def all(a, axis=None):
-    a = asarray(a)
-    r = _reduction("all", a, axis, dtype("bool"))
-    v = r.elem(())
-    return SV(v.t != 0, "b")
+    if axis is not None:
+        raise Undecided("np.all(axis=)")
+    return _quant(a, True)
 
 
 def _shape_preserving(name):
@@ -1680,30 +1732,39 @@ sort = _shape_preserving("sort")
 diff = _shape_preserving("diff")
 
 
+_ARGSORT = {}
+
+
 @array_function(_first)
 def argsort(a, axis=-1):
+    """the permutation numpy returns is a function of the contents: ARGSORT(contents, n, r),
+    with 0 <= ARGSORT < n (instantiated where used); sortedness is not needed by any contract"""
     a = asarray(a)
     if a.ndim != 1:
         raise Undecided("argsort on n-d arrays")
-    p = cur()
-    f = z3.Function(p.fresh_name("argsort"), z3.IntSort(), z3.IntSort())
     n = a._shape[0]
     e = a.snapshot()
+    j = z3.Int("j!red")
+    body = core.term(SV.lift(_num(_plain(e((SV(j, "i"),))))))
+    if body.sort() == z3.IntSort():
+        body = z3.ToReal(body)
+    lam = z3.Lambda([j], body)
+    f = _ARGSORT.get("f")
+    if f is None:
+        f = _ARGSORT["f"] = z3.Function("np_argsort", lam.sort(), z3.IntSort(), z3.IntSort(), z3.IntSort())
+    nt = core.term(SV.lift(n))
 
     def el(idx):
         r = SV.lift(idx[0])
-        j = SV(f(r.t), "i")
+        t = f(lam, nt, r.t)
         p2 = cur()
-        k2 = ("argsortax", f.name(), z3.simplify(r.t).get_id())
+        k2 = ("argsortax", t.get_id())
         if k2 not in p2.counter:
             p2.counter[k2] = 1
-            inr = z3.And(r.t >= 0, r.t < core.term(SV.lift(n)))
-            p2.add(z3.Implies(inr, z3.And(j.t >= 0, j.t < core.term(SV.lift(n)))))
-        return j
+            p2.add(z3.Implies(z3.And(r.t >= 0, r.t < nt), z3.And(t >= 0, t < nt)))
+        return SV(t, "i")
 
-    out = ndarray.from_elem(el, (n,), "int64")
-    out._perm_of = (a, f)
-    return out
+    return ndarray.from_elem(el, (n,), "int64")
 
 
 @array_function(_seq_first)
